@@ -359,4 +359,24 @@ def rule_r3(ctx):
     return rr
 
 
-RULES = [("C01-R1", rule_r1), ("C01-R2", rule_r2), ("C01-R3", rule_r3)]
+def _conjuncts():
+    """C01 is the conjunction of the per-feature properties: their structural clauses are
+    necessary conditions of C01 as well, so the C01 check evaluates them too (same rule ids and
+    finding keys as in the check of the property they belong to)."""
+    import importlib
+
+    out = []
+    for mod, ids in (
+        ("c02", ("C02-R1", "C02-R2", "C02-R3")),
+        ("c05", None), ("c06", None), ("c07", None), ("c09", ("C09-R1", "C09-R2")),
+        ("c11", ("C11-R1", "C11-R2", "C11-R4", "C11-R5")), ("c12", ("C12-R1", "C12-R2", "C12-R4", "C12-R5")),
+        ("c13", None), ("c14", ("C14-R1", "C14-R2", "C14-R5")),
+    ):
+        m = importlib.import_module(f"olsa.rules.{mod}")
+        for rid, fn in m.RULES:
+            if ids is None or rid in ids:
+                out.append((rid, fn))
+    return out
+
+
+RULES = [("C01-R1", rule_r1), ("C01-R2", rule_r2), ("C01-R3", rule_r3)] + _conjuncts()
